@@ -124,10 +124,24 @@ struct sig<std::index_sequence<I...>> {
     using type = int(vb<I>...);
 };
 
+#ifndef TWOMETHODS
+#define TWOMETHODS 0
+#endif
+// one function per combination, shared by the definition containers of every
+// method in the product (containers that inherit a method-independent fn)
+template<class... T>
+struct shared_impl {
+    static int fn(T&...) {
+        return combo_index<T...>();
+    }
+};
+
 template<class Mask>
 struct Case {
     struct key;
+    struct key2;
     using M = method<key, typename sig<std::make_index_sequence<ARITY>>::type, P>;
+    using M2 = method<key2, typename sig<std::make_index_sequence<ARITY>>::type, P>;
 
 #if HASMETHOD
     template<class... T>
@@ -150,6 +164,14 @@ struct Case {
 #endif
         >;
 #else
+#if TWOMETHODS
+    template<class Method, class... T>
+    struct definition
+        : shared_impl<T...>,
+          std::conditional_t<Mask::test(combo_index<T...>()), undefined_mark, defined_base> {};
+    using lists = product<
+        types<M, M2>, typename classes<D1>::type
+#else
     template<class Method, class... T>
     struct definition
         : std::conditional_t<Mask::test(combo_index<T...>()), undefined_mark, defined_base> {
@@ -159,6 +181,7 @@ struct Case {
     };
     using lists = product<
         types<M>, typename classes<D1>::type
+#endif
 #if UD_L2
         ,
         typename classes<D2>::type
@@ -210,13 +233,26 @@ void add_catch_all(std::index_sequence<I...> seq) {
     static typename M::template add_function<catch_all<M, decltype(seq)>::fn> reg;
 }
 
+template<class Mask, class M>
+void check_method(const std::string& mask_text, const char* which);
+
 template<class Mask>
 void run_case(const std::string& mask_text) {
     using C = Case<Mask>;
-    using M = typename C::M;
     ++g_cases;
-    add_catch_all<M>(std::make_index_sequence<ARITY>());
+    add_catch_all<typename C::M>(std::make_index_sequence<ARITY>());
+#if TWOMETHODS
+    add_catch_all<typename C::M2>(std::make_index_sequence<ARITY>());
+#endif
     static typename C::registration reg; // registers the defined combinations
+    check_method<Mask, typename C::M>(mask_text, "method 1");
+#if TWOMETHODS
+    check_method<Mask, typename C::M2>(mask_text, "method 2 (same definition functions)");
+#endif
+}
+
+template<class Mask, class M>
+void check_method(const std::string& mask_text, const char* which) {
     // (1) exactly the defined combinations are in the method's catalog
     std::multiset<int> registered;
     int others = 0;
@@ -254,7 +290,7 @@ void run_case(const std::string& mask_text) {
         ++g_nontrivial;
     std::string name = "L=" + std::to_string(UD_L1) + "x" + std::to_string(UD_L2) + "x" +
         std::to_string(UD_L3) + " method_member=" + std::to_string(HASMETHOD) +
-        " mark_style=" + std::to_string(MARKSTYLE) +
+        " mark_style=" + std::to_string(MARKSTYLE) + " " + which +
         " not_defined=" + mask_text;
     if (registered != expected || others != 1) {
         std::string got, want;
